@@ -770,6 +770,26 @@ def c16(ctx):
     run_regions(ctx, res, plain, lambda e, ops, obs, mo=None: ref_oracle(e, ops, obs, [paired_clause(0, 1), state_clause], mo), 'state')
     if floats:
         run_regions(ctx, res, floats, lambda e, ops, obs, mo=None: ref_oracle(e, ops, obs, [paired_clause(0, 1)], mo), 'full')
+    # index containers on their own: every sequence of length L over the transition-covering alphabet, a serde round
+    # trip after every push (so every Stride variant, the u32/u64 split and every spill state is serialised), then
+    # observed and continued
+    import itertools
+    L = 3 if not ctx.thorough else 4
+    iccases = []
+    for s_ in (1, 3):
+        alpha = list(dict.fromkeys(ic_alphabet(s_)))
+        for seq in itertools.product(alpha, repeat=L):
+            ops = []
+            for x in seq: ops += [('p', x), ('s',), ('o',)]
+            ostr = [('p %x' % a[1]) if a[0] == 'p' else a[0] for a in ops]
+            for k in ('vec', 'ilist', 'iopt', 'stride'): iccases.append((k, ostr, ops))
+    run_ic_cases(ctx, res, iccases)
+    # FlatStack: random histories with serde round trips of the whole stack
+    fscases = gen_fs_cases(ctx, list(FS_EXPR), 12 if not ctx.thorough else 150, 12, p_serde=0.4)
+    note_fs(res, fscases)
+    run_fs_cases(ctx, res, fscases)
+    res.extra['containers_and_stacks'] = (f'{len(iccases)} index-container histories (all sequences of length {L} over the 9-letter alphabet, two strides, '
+                                          f'4 container kinds, serde after every push) and {len(fscases)} FlatStack histories with serde round trips')
     res.extra['state_tie'] = ('after every serde operation the complete serialised form of the implementation value (a name-free tree, '
                               'harness/src/state.rs) is compared with the form the model computes from its own state (coq/Serde/Ser.v): '
                               'equality of the whole internal state, not only of the observations')
@@ -911,6 +931,10 @@ def ic_oracle(kind, ops, obs, cost):
             l += op[1]
             if cost and kind == 'iopt' and not spilled_ever and not stride_shape(l): spilled_ever = True
         elif op[0] == 'c': l = []; state = None
+        elif op[0] == 's':
+            v = gen.parse(o)
+            if not isinstance(v, list) or len(v) != 2 or v[0] != v[1]:
+                return f'op {t}: the serialised form changed across the serde round trip: {o} (sequence {[hex(x) for x in l]})'
         elif op[0] == 'o':
             v = gen.parse(o)
             if v[0] != len(l): return f'op {t}: len {v[0]} for sequence {[hex(x) for x in l]}'
@@ -1022,6 +1046,10 @@ def fs_oracle(e, o, ops, obs, index_free=False):
         elif k in ('extend', 'extendlazy'): l += list(op[1])
         elif k == 'fromiter': l = list(op[1])
         elif k == 'clear': l = []
+        elif k == 'serde':
+            v = gen.parse(g)
+            if not isinstance(v, list) or len(v) != 2 or v[0] != v[1]:
+                return f'op {t}: the serialised form of the stack changed across the serde round trip: {g}'
         elif k == 'observe':
             v = gen.parse(g)
             ps = [expected_probe(e, x) for x in l]
@@ -1037,7 +1065,7 @@ def fs_oracle(e, o, ops, obs, index_free=False):
                 if len(v) > 8 and any(x != 0 for x in v[8]): return f'op {t}: the stack holds index capacity {v[8]} over a dense-index region'
     return None
 
-def gen_fs_cases(ctx, names, n, maxops, observe_each=True):
+def gen_fs_cases(ctx, names, n, maxops, observe_each=True, p_serde=0.0):
     cases = []
     for name in names:
         e, o = FS_EXPR[name]
@@ -1056,6 +1084,7 @@ def gen_fs_cases(ctx, names, n, maxops, observe_each=True):
                 elif r < 0.8: ops.append(('clear',))
                 elif r < 0.88: ops.append(('clone',))
                 else: ops.append(('reserve', ctx.rng.choice([0, 1, 10, 100])))
+                if p_serde and ctx.rng.random() < p_serde: ops.append(('serde',))
                 if observe_each: ops.append(('observe',))
             ops.append(('observe',))
             cases.append((name, ops))
